@@ -800,6 +800,35 @@ def arrays_case(case, res):
             res.violation("setitem|refused but modified", "q[1] = 3 s raised and changed the phase", case, None)
         else:
             res.hits["item assignment of a non-angle refused"] += 1
+    # the outer form of the arithmetic ufuncs: every pair, in two-double arithmetic (the same as a[:, None] <op> b)
+    oa = Phase(np.array([2.0 ** 40, 5.0, -7.0]), np.array([0.3, 0.125, -0.45]))
+    ob = Phase(np.array([2.0 ** 41, -1.0]), np.array([0.1, 0.2]))
+    oav, obv = exact(oa), exact(ob)
+    facs = np.array([3.0, 7.0, 0.5])
+    for nm, fn, want in (("np.add.outer(p, q)", lambda: np.add.outer(oa, ob), [[x + y for y in obv] for x in oav]),
+                         ("np.subtract.outer(p, q)", lambda: np.subtract.outer(oa, ob), [[x - y for y in obv] for x in oav]),
+                         ("np.multiply.outer(p, factors)", lambda: np.multiply.outer(oa, facs), [[x * F(float(f)) for f in facs] for x in oav]),
+                         ("np.multiply.outer(factors, p)", lambda: np.multiply.outer(facs, oa), [[x * F(float(f)) for x in oav] for f in facs]),
+                         ("np.divide.outer(p, divisors)", lambda: np.divide.outer(oa, facs), [[x / F(float(f)) for f in facs] for x in oav]),
+                         ("np.add.outer(p, Quantity)", lambda: np.add.outer(oa, np.array([0.25, 2.0 ** 30]) * u.cycle),
+                          [[x + y for y in (F(1, 4), F(2 ** 30))] for x in oav])):
+        res.transitions += 1
+        res.state(("outer", nm))
+        try:
+            got = fn()
+        except Exception as e:
+            res.hits["outer form refused"] += 1
+            continue
+        flat = [w for row in want for w in row]
+        if type(got) is not Phase:
+            res.violation(f"outer|{nm}|not a Phase", f"{nm} returned {type(got).__name__}: precision silently degraded", case, {"call": nm})
+            continue
+        gv = exact(got)
+        if got.shape != (len(want), len(want[0])) or any(abs(a - w) > TOL * max(1, abs(w)) * 2 for a, w in zip(gv, flat)):
+            res.violation(f"outer|{nm}|value", f"{nm}: values {[float(a) for a in gv][:4]}..., exact {[float(w) for w in flat][:4]}...", case,
+                          {"call": nm})
+        else:
+            res.hits["outer form in two-double arithmetic"] += 1
     # ufunc.at (unbuffered in-place update at given positions): the update is made exactly, or the call is refused -
     # leaving the phase unchanged without a word is a silent loss
     for nm, call, delta in (("np.add.at(p, [0], 1.0)", lambda q: np.add.at(q, [0], 1.0), F(1)),
